@@ -13,7 +13,7 @@ ASSUMPTIONS = [
 ]
 OUTSIDE = ["statistical independence / non-overlap of numpy's spawned streams", "progress-bar output"]
 RULE = "schedule parameters are solver-enumerated for the full runs and stay symbolic (unbounded) in the lemmas."
-BUDGET_S = {"quick": 120, "thorough": 900}
+BUDGET_S = {"quick": 600, "thorough": 3000}
 
 
 def configs(tier, seed):
